@@ -400,13 +400,13 @@ S(id="T.copy.term", props=["C13", "C12"], spec="symtab.spec.c", harness="h_add_t
   replace=["find_hash_table_entry/find_slot_c", "_OS_add_string_function/os_add_string_use_c", "_OS_expand_memory/os_expand_use_c", "_VLO_expand_memory/vlo_expand_use_c"],
   functions=["symb_add_term"], params={"quick": {"CAP": 32}, "thorough": {"CAP": 256}},
   what="the terminal record gets the code and the next numbers; its name is a COPY inside the grammar's object stack (different object, equal bytes: ghost index); "
-       "the record is appended to both reference arrays; all writes stay inside the containers",
+       "the record is appended to both reference arrays and stored in the slot(s) the table(s) reserved for it; all writes stay inside the containers",
   assumes=["A5: _VLO_expand_memory contract assumed", "the string and segment contracts are those proved by OS.string / OS.expand, restated for an empty top object"])
 S(id="T.copy.nonterm", props=["C13", "C12"], spec="symtab.spec.c", harness="h_add_nonterm", mode="L", enforce=["symb_add_nonterm/add_nonterm_c"],
   replace=["find_hash_table_entry/find_slot_c", "_OS_add_string_function/os_add_string_use_c", "_OS_expand_memory/os_expand_use_c", "_VLO_expand_memory/vlo_expand_use_c"],
   functions=["symb_add_nonterm"], params={"quick": {"CAP": 32}, "thorough": {"CAP": 256}},
   what="the nonterminal record gets the next numbers, no rules and no loop mark; its name is a COPY inside the grammar's object stack (different object, equal bytes: ghost index); "
-       "the record is appended to both reference arrays; all writes stay inside the containers",
+       "the record is appended to both reference arrays and stored in the slot(s) the table(s) reserved for it; all writes stay inside the containers",
   assumes=["A5: _VLO_expand_memory contract assumed", "the string and segment contracts are those proved by OS.string / OS.expand, restated for an empty top object"])
 S(id="D.unwind", props=["C17", "C11"], spec="gram.spec.c", harness="h_free_sgrammar", mode="L", canaries=3, enforce=["free_sgrammar/free_sgrammar_enf_c"],
   replace=["_OS_delete_function/os_delete_sg_c", "yaep_free/vlo_free_sg_c"], functions=["free_sgrammar", "set_sgrammar (error branch)"],
